@@ -43,8 +43,15 @@ pub enum Dag {
     Join,
     Independent,
     PrepTwoTransfers,
+    /// The 3-chain listed DEPENDENTS-FIRST: the vector / id order is the reverse of a topological
+    /// order (transfer, then the layer-1 preparation it needs, then the layer-0 root).
+    /// `MigrationState::from_parts` and the stores accept any order.
+    ChainReversed,
+    /// The 3-chain in a mixed order: transfer (needs id 2), layer-0 root, layer-1 preparation
+    /// (needs id 1) — one edge points forward in the vector and one backward.
+    ChainMixed,
 }
-pub const DAGS: [Dag; 5] = [Dag::Chain, Dag::Fork, Dag::Join, Dag::Independent, Dag::PrepTwoTransfers];
+pub const DAGS: [Dag; 7] = [Dag::Chain, Dag::Fork, Dag::Join, Dag::Independent, Dag::PrepTwoTransfers, Dag::ChainReversed, Dag::ChainMixed];
 
 pub struct ProfileDef {
     pub name: &'static str,
@@ -107,6 +114,16 @@ pub fn shape(dag: Dag) -> Shape {
             deps: [vec![], vec![0], vec![0]],
             crossings: vec![20_000, 80_000],
         },
+        Dag::ChainReversed => Shape {
+            kinds: [T { crossing: 0 }, P { layer: 1, index: 0 }, P { layer: 0, index: 0 }],
+            deps: [vec![1], vec![2], vec![]],
+            crossings: vec![100_000],
+        },
+        Dag::ChainMixed => Shape {
+            kinds: [T { crossing: 0 }, P { layer: 0, index: 0 }, P { layer: 1, index: 0 }],
+            deps: [vec![2], vec![], vec![1]],
+            crossings: vec![100_000],
+        },
     }
 }
 
@@ -117,7 +134,7 @@ fn preparation_plan(dag: Dag) -> PreparationPlan {
     let prior = |layer, transaction, output, v: u64| PrepInput::Prior { layer, transaction, output, value: z(v) };
     let ptx = |i: Vec<PrepInput>, o: Vec<PrepOutput>| PrepTransaction::from_parts(i, o);
     match dag {
-        Dag::Chain => PreparationPlan::from_parts(
+        Dag::Chain | Dag::ChainReversed | Dag::ChainMixed => PreparationPlan::from_parts(
             vec![
                 vec![ptx(vec![w(0, 150_000)], vec![PrepOutput::Intermediate(z(130_000)), PrepOutput::Change(z(5_000))])],
                 vec![ptx(vec![prior(0, 0, 0, 130_000)], vec![PrepOutput::Funding(z(110_000))])],
@@ -945,6 +962,12 @@ impl<'a> Model<'a> {
             if trace_enabled() {
                 eprintln!("probe tip {tip}: {:?}\n    txs {:?}", out.adv, out.ms.transactions().iter().map(|t| (state_name(&t.state()), u32::from(t.scheduled_height()), t.anchor_boundary().map(u32::from), t.unsatisfiable())).collect::<Vec<_>>());
             }
+            // The late-Replan and Rebuild obligations hold at EVERY call of the probe (default
+            // oracle answers, nothing set aside), not only at its end.
+            if !out.ms.is_terminal() && matches!(out.adv.step(), AdvanceStep::Waiting | AdvanceStep::Complete) {
+                let statuses = catch(|| out.ms.transaction_statuses(out.targets)).map_err(|p| Viol::new("panic:transaction_statuses", p))?;
+                quiet_step_clauses(&statuses, out.adv.step(), tip)?;
+            }
             *last = Some((out.adv.clone(), out.targets));
             *ms = out.ms;
             Ok(())
@@ -983,28 +1006,7 @@ impl<'a> Model<'a> {
             return Ok(());
         }
         let statuses = catch(|| ms.transaction_statuses(targets)).map_err(|p| Viol::new("panic:transaction_statuses", p))?;
-        // Documented (AdvanceStep::Rebuild): "A migration is never stuck silently on an expired
-        // transfer: this step is returned in preference to Waiting whenever one is holding up the
-        // schedule." With every oracle answer the default and nothing set aside, a transfer whose
-        // status is Expired (expired on scanned data, unmarked, no dead dependency) is exactly a
-        // rebuild candidate.
-        for (i, s) in statuses.iter().enumerate() {
-            if !is_mined(&s.state()) && matches!(s.kind(), MigrationTxKind::Transfer { .. }) && s.blocked_on() == Some(Blocker::Expired) {
-                return Err(Viol::new(
-                    "liveness:expired-transfer-not-surfaced",
-                    format!("after advancing the tip alone to {} the drive API answers {:?} although transfer {} has expired unmined and is rebuildable", env.tip, step.kind(), i),
-                ));
-            }
-        }
-        // Documented (next_step, late Replan slot): once EVERY unmined transaction is dead and
-        // nothing was set aside, Replan is surfaced — "a migration never ends silently holding" dead value.
-        let unmined: Vec<_> = statuses.iter().filter(|s| !is_mined(&s.state())).collect();
-        if !unmined.is_empty() && unmined.iter().all(|s| matches!(s.blocked_on(), Some(Blocker::Unsatisfiable) | Some(Blocker::Expired))) {
-            return Err(Viol::new(
-                "liveness:dead-value-not-surfaced",
-                format!("after advancing the tip alone to {} the drive API answers {:?} although every unmined transaction is dead (unsatisfiable or expired): the stranded value is never surfaced as Replan", env.tip, step.kind()),
-            ));
-        }
+        quiet_step_clauses(&statuses, &step, env.tip)?;
         // 0 = silent, 1 = accounted for
         let mut ok = [false; N];
         let txs = ms.transactions();
@@ -1044,6 +1046,38 @@ impl<'a> Model<'a> {
         }
         Ok(())
     }
+}
+
+/// The two documented per-call obligations of a Waiting/Complete answer when every oracle answer is
+/// the default and nothing was set aside (the situation of the tip-only probe). `statuses` is
+/// `transaction_statuses` at the same targets.
+fn quiet_step_clauses(statuses: &[zcash_pool_migration::state::TransactionStatus], step: &AdvanceStep, tip: u32) -> Result<(), Viol> {
+    // Documented (AdvanceStep::Rebuild): "A migration is never stuck silently on an expired
+    // transfer: this step is returned in preference to Waiting whenever one is holding up the
+    // schedule." A transfer whose status is Expired (expired on scanned data, unmarked, no dead
+    // dependency) is exactly a rebuild candidate.
+    for (i, s) in statuses.iter().enumerate() {
+        if !is_mined(&s.state()) && matches!(s.kind(), MigrationTxKind::Transfer { .. }) && s.blocked_on() == Some(Blocker::Expired) {
+            return Err(Viol::new(
+                "liveness:expired-transfer-not-surfaced",
+                format!("with the tip alone advanced to {tip} the drive API answers {:?} although transfer {i} has expired unmined and is rebuildable", step.kind()),
+            ));
+        }
+    }
+    // Documented (next_step, late Replan slot): once EVERY unmined transaction is dead and nothing
+    // was set aside, Replan is surfaced — "a migration never ends silently holding" dead value.
+    let unmined: Vec<_> = statuses.iter().filter(|s| !is_mined(&s.state())).collect();
+    if !unmined.is_empty() && unmined.iter().all(|s| matches!(s.blocked_on(), Some(Blocker::Unsatisfiable) | Some(Blocker::Expired))) {
+        return Err(Viol::new(
+            "liveness:dead-value-not-surfaced",
+            format!(
+                "with the tip alone advanced to {tip} the drive API answers {:?} (outlook none) although transaction_statuses shows every unmined transaction dead ({}): the stranded value is never surfaced as Replan — the migration silently holds value that can no longer move",
+                step.kind(),
+                unmined.iter().map(|s| format!("{}={:?}", u32::from(s.id()), s.blocked_on().unwrap())).collect::<Vec<_>>().join(", ")
+            ),
+        ));
+    }
+    Ok(())
 }
 
 /// Invariants on the step the drive API surfaces, against the state it returns.
